@@ -154,6 +154,13 @@ def impl(c, ctx):
 
 
 def agree(c, io, mo, ctx):
+    tally = ctx.notes.setdefault("branches", {})  # branches of the modelled functions, as reported by the driver
+    for b in mo.get("br", []):
+        tally[b] = tally.get(b, 0) + 1
+    return _agree(c, io, mo, ctx)
+
+
+def _agree(c, io, mo, ctx):
     if "nonfinite" in io:
         return None  # float overflow: outside the exact model (never generated on purpose)
     if "err" in io or "err" in mo:
